@@ -554,6 +554,24 @@ func allocSite(data []byte) (site, where string) {
 	if len(best) == 0 {
 		return "?", ""
 	}
+	if os.Getenv("C09_STACK") != "" { // triage aid: the five largest allocation sites
+		for i := 0; i < len(best) && i < 5; i++ {
+			k := 0
+			for k < len(best[i].st) && best[i].st[k] != 0 {
+				k++
+			}
+			fr := runtime.CallersFrames(best[i].st[:k])
+			fmt.Fprintf(os.Stderr, "alloc site %d: %d bytes:", i, best[i].n)
+			for j := 0; j < 6; j++ {
+				f, more := fr.Next()
+				fmt.Fprintf(os.Stderr, " %s:%d", f.Function[strings.LastIndex(f.Function, "/")+1:], f.Line)
+				if !more {
+					break
+				}
+			}
+			fmt.Fprintln(os.Stderr)
+		}
+	}
 	st := best[0].st
 	k := 0
 	for k < len(st) && st[k] != 0 {
